@@ -392,6 +392,12 @@ def _validate_original_url(url: str, prefix: str) -> str:
     if parsed.scheme or parsed.netloc:
         # Not a relative URL — fall back to the prefix root
         return prefix or "/"
+    # urlparse is not what the browser runs: it treats "\\" as an ordinary path
+    # character and "///host" as a path, while a browser resolves "/\\evil.com",
+    # "\\\\evil.com" and "///evil.com" to another origin.  Only a plain absolute
+    # path on this origin is acceptable.
+    if "\\" in url or not url.startswith("/") or url.startswith("//"):
+        return prefix or "/"
     if prefix and not url.startswith(prefix):
         return prefix or "/"
     return url
@@ -415,6 +421,12 @@ def _validate_return_to(url: str, allowed_origins: frozenset[str] = frozenset())
     """
     if not url or len(url) > 2048:
         return ""
+    # The checks below look at urlparse's view, but the raw string is what the
+    # browser receives, and a browser treats "\\" as "/" and strips control
+    # characters: "http://evil.com\\@localhost/" parses here as host localhost
+    # (userinfo "evil.com\\") and resolves there to host evil.com.
+    if "\\" in url or any(ord(ch) <= 0x20 or ord(ch) == 0x7F for ch in url):
+        return ""
     parsed = urlparse(url)
     if parsed.scheme not in ("http", "https"):
         return ""
@@ -426,7 +438,8 @@ def _validate_return_to(url: str, allowed_origins: frozenset[str] = frozenset())
         return url
     # Check against allowlist (scheme + host, ignoring path)
     origin = f"{parsed.scheme}://{parsed.hostname}"
-    if origin in allowed_origins:
+    if parsed.port is None and origin in allowed_origins:
+        # A port-less allowlist entry names the default-port origin only.
         return url
     # Also try with explicit port
     if parsed.port:
